@@ -304,6 +304,8 @@ func collectStmtDeps(s Stmt, locals map[string]bool, add func(string)) {
 		collectExprDeps(s.Expr, locals, add)
 	case *BreakIfStmt:
 		collectExprDeps(s.Condition, locals, add)
+	case *ConstAssertDecl:
+		collectExprDeps(s.Condition, locals, add)
 	}
 }
 
